@@ -92,9 +92,37 @@ class LayerA(core.Layer):
                           case['peaks'], case['reverse'], None)
 
 
+class LadderA(core.Layer):
+    """long molecules with an indel ladder (two diagonals, small overlap): chained segments whose merge point is interior"""
+
+    def __init__(self, name, full, configs, optional=False):
+        self.name, self.optional = name, optional
+        self.cases = list(lattice.ladder_cases(full))
+        self.configs = configs
+        self.chunk = 40
+        self.bounds = dict(worlds='indel-ladder worlds of mc.props.c15.ladder_worlds(full=%s)' % full, peaks_per_list=[1, 3], maxDistance=[4, 6],
+                           strands=['+ q', '- mirror(q)'], configs=[list(c) for c in configs])
+        self.rule = '%d (world, peak list) cases x 2 strands x 2 maxDistance x %d configs' % (len(self.cases), len(configs))
+
+    def nblocks(self):
+        return (len(self.cases) + self.chunk - 1) // self.chunk
+
+    def run_block(self, b, acc):
+        for name, ref, q, peaks in self.cases[b * self.chunk:(b + 1) * self.chunk]:
+            for cfg in self.configs:
+                for maxd in (4, 6):
+                    for rev, qq in ((False, q), (True, sorted(q[-1] - p for p in q))):
+                        acc.seq += 1
+                        check_case(cfg, maxd, ref, qq, 0, peaks, rev, acc)
+
+    def replay(self, case):
+        return check_case(tuple(case['config']), case['maxDistance'], case['reference'], case['query'], case['shift'],
+                          case['peaks'], case['reverse'], None)
+
+
 def layers(tier, seed):
     from mc import e2e
     if tier == 'quick':
-        return [LayerA('A:NR5,NQ4', 5, 4, CONFIGS[:3], (4, 6))] + e2e.c01_layers(tier, seed)
-    return [LayerA('A:NR5,NQ4', 5, 4, CONFIGS, (4, 6)), LayerA('A:NR6,NQ5', 6, 5, CONFIGS, (4, 6))] + e2e.c01_layers(tier, seed) + \
+        return [LayerA('A:NR5,NQ4', 5, 4, CONFIGS[:3], (4, 6)), LadderA('A:indel-ladders', False, CONFIGS[:2])] + e2e.c01_layers(tier, seed)
+    return [LayerA('A:NR5,NQ4', 5, 4, CONFIGS, (4, 6)), LadderA('A:indel-ladders', True, CONFIGS), LayerA('A:NR6,NQ5', 6, 5, CONFIGS, (4, 6))] + e2e.c01_layers(tier, seed) + \
            [LayerA('A:NR7,NQ5', 7, 5, CONFIGS[:3], (4, 6), optional=True)]
